@@ -657,9 +657,17 @@ def run(ctx):
     cpath = os.path.join(ctx.scratch, 'conv.json')
     with open(cpath, 'w') as f:
         _json.dump(table, f)
-    rg = ctx.tlc('MC_ParamGetters', 'MC_ParamGetters.cfg', coverage=True, workers=6, timeout=900, env={'CONV_FILE': cpath})
-    ctx.require_coverage(rg, ['XGetParam', 'XGetInt', 'XGetFloat', 'XGetBool', 'XGetUuid', 'XGetDatetime', 'XGetDate',
-                              'XGetJson', 'XGetList', 'XGetListInt', 'XHasParam'])
+    # (TLC's -coverage nearly doubles the time of this instance; the quick tier guards against vacuity with what the
+    #  actions themselves exported instead: every getter kind must have produced cases)
+    rg = ctx.tlc('MC_ParamGetters', 'MC_ParamGetters.cfg', coverage=not ctx.quick, workers=8, timeout=900,
+                 env={'CONV_FILE': cpath})
+    if ctx.quick:
+        fired = {c['call']['kind'] for c in rg.json}
+        if fired != set(KINDS):
+            raise MachineryError('vacuous model run: getter kinds never called: %s' % sorted(set(KINDS) - fired))
+    else:
+        ctx.require_coverage(rg, ['XGetParam', 'XGetInt', 'XGetFloat', 'XGetBool', 'XGetUuid', 'XGetDatetime', 'XGetDate',
+                                  'XGetJson', 'XGetList', 'XGetListInt', 'XHasParam'])
     if not ctx.quick:
         badg = ctx.tlc('MC_ParamGetters', 'MC_ParamGettersBad.cfg', must_hold=False, count=False, workers=2, timeout=120,
                        env={'CONV_FILE': cpath})
@@ -720,7 +728,7 @@ def run(ctx):
                  workers=4, timeout=600, count=False, env={'CONV_FILE': cpath})
     hist = list({digest(b): b for b in rs.json}.values())
     rng.shuffle(hist)
-    hist = hist[:ctx.pick(1500, 25000)]
+    hist = hist[:ctx.pick(1200, 25000)]
     hsus = []
     ncalls = 0
     for b in hist:
